@@ -22,6 +22,12 @@ CHECKS = {
  "C04": (True, "model_checking", "stateless model checking of the real code: ordered subsets (<=2 quick, <=3 thorough) of in-flight operations on one RPC over a stalled or flowing model transport, cancel after quiescence or by a racing canceller thread, deviation bound 1 (2), both cancel modes; five-clause oracle",
          "For every ordered subset of {send, second send, recv, close, half-close, unary invoke, next NewStream} started on separate goroutines on one RPC, over a stalled client transport or a flowing one with a silent/receiving/flooding/echoing handler, the context is cancelled either after quiescence (so 'in flight when the cancel happens' is a happens-before fact) or by a canceller thread placed at every point by the deviation bound. Oracle: (1) no call stays blocked; (2) calls parked at the cancel with a silent peer fail, receives with exactly ctx.Err() and, in the default mode, sends too (relaxed to 'fails' when a local Close/half-close races for being the termination cause); (3) later send/receive fail; (4) the connection reports closed or serves a probe; (5) the peer handler's context ends once the cancellation has been read. Four genuine deviations of the pinned tree are listed as known findings (F1, F2, F11, F12).",
          "Deviation bound 1-2; model transport; clauses (4),(5) presuppose that the peer's reader is not parked on a message the handler never receives (single-slot lending by design).", "4/C04"),
+ "C05": (True, "model_checking", "fault enumeration x schedule enumeration on the real code: every transport call index of a fault-free run (+1), endpoint, read/write, fault kind (error, error after j bytes, peer close, local close), deviation bound 0-1 (2 on unary in thorough), 1-byte and whole-buffer read chunking",
+         "The workloads unary / client-stream(2) / server-stream(2) / bidi(2) (thorough: + two unary in a row, rendezvous pipe, soft cancel with tiny split/writer buffer) are re-run on the real conn/server pair once per armed fault and per schedule within the bound. Oracle: no panic; at quiescence every pending call and handler has returned; Invoke, NewStream, MsgSend and MsgRecv issued afterwards fail; the connection reports closed; per RPC and direction the received byte strings are an exact prefix of the submitted ones (nothing corrupted, duplicated, reordered or cross-delivered).",
+         "After a fault the model transport is dead in both directions (reset-connection semantics); fault positions are taken from the default schedule's call count.", "4/C05"),
+ "C12": (True, "model_checking", "stateless model checking of the real code: a closer thread (Conn.Close / cancel of ServeOne's context / cancel of Serve's context / listener close) placed at every point of each workload by deviation bounding (bound 2 on idle/unary/running/parked), leak census at quiescence",
+         "Workloads idle, unary, server-stream, bidi, handler-running, operation-parked-in-a-stalled-transport (thorough: + client-stream, two unary, rendezvous pipe) are closed at every schedule point from the client (Conn.Close) or the server (ServeOne context); Server.Serve over a model listener with 1-2 connections is stopped by its context or by closing the listener. Oracle: Close returns; each transport is closed exactly once even after a second Close; pending and later calls fail; the active stream's context is done; no goroutine spawned by the library remains; ServeOne returned; Serve returns only after all its handlers returned; delivered data is a correct prefix.",
+         "Deviation bound 1-2; model transport whose Close unblocks its pending I/O (as net.Conn does); handlers end when their stream context ends.", "4/C12"),
 }
 ALL = ["C%02d" % i for i in range(1, 20)]
 NOT_BUILT_REASON = "check not built yet in this round (planned: see DESIGN.md section 4); not claimed until it exists"
